@@ -246,6 +246,7 @@ class Ctx:
         self.frames: list = []
         self.notes: list[str] = []
         self.last_case: dict = {}
+        self.shield = 0  # depth of `with CancelScope(shield=True)` blocks: AnyIO cancellation cannot be delivered inside
         self.loop_k = None
 
     # -- decisions ---------------------------------------------------------
